@@ -470,7 +470,9 @@ P('C04', 'other',
    lambda c: r06_4_matrix_fills(c, 'R04.3'),
    lambda c: _sib(c, [discrete_families(c).get('order'), discrete_families(c).get('dir')], 'R12.2'),
    lambda c: _proj(c, [discrete_families(c).get('order'), discrete_families(c).get('dir')], 'R05.2'),
-   lambda c: only_rules(lambda cc: r03_2_strict_tests(cc, 'R04.5'), {'R04.5'})(c)],
+   lambda c: only_rules(lambda cc: r03_2_strict_tests(cc, 'R04.5'), {'R04.5'})(c),
+   lambda c: [o for o in r03_5_limit_derivation(c, 'R04.5') if 'order' in o.title or 'directionality' in o.title],
+   lambda c: _units_of(c, [discrete_families(c).get('order'), discrete_families(c).get('dir')], 'R08.1')],
   "R04.1 train-swap antisymmetry as a proof by program symmetry: sigma(P) == -P for the order kernels, sigma(P) == P with the two per-spike "
   "arrays exchanged for the directionality profile kernels (hence swapping the trains negates order profile and un-normalised directionality, "
   "all inputs); R04.2 leader = +1 sign table in every branch of every copy; R04.3 matrix fill D[a,b] = d, D[b,a] = -d on zeros, entry = pair "
@@ -486,13 +488,16 @@ P('C05', 'other',
    lambda c: r18_1_guarded_divisions(c, 'R05.3', 'R05.4'),
    lambda c: only_rules(lambda cc: r14_2_index_kinds(cc, 'R14.2', 'R05.5', 'R14.3'), {'R05.5'})(c),
    lambda c: RM.r06_aggregation(c, 'R05.5', 'R05.5'),
-   lambda c: RC.avrg_spec(c, 'DiscreteFunc', 'R05.6') + RC.avrg_spec(c, 'PieceWiseConstFunc', 'R05.6') + RC.avrg_spec(c, 'PieceWiseLinFunc', 'R05.6')],
+   lambda c: RC.avrg_spec(c, 'DiscreteFunc', 'R05.6') + RC.avrg_spec(c, 'PieceWiseConstFunc', 'R05.6') + RC.avrg_spec(c, 'PieceWiseLinFunc', 'R05.6'),
+   lambda c: [Ob('R05.7', o.title, o.status, o.where, o.detail, o.key, o.construct, o.extra)
+              for o in r_kernel_call_typestates(c, ('R15.1', '', '')) if o.rule == 'R15.1']],
   "R05.1 route identity: on the fallback and interval paths the scalar is literally `profile_function(same trains, same settings)."
   "avrg/integral(interval)` of the same measure, and the compiled single-pass call receives the same argument roles as the profile "
   "kernel; R05.2 each compiled single-pass kernel is a projection of the compiled profile kernel (state projection + integration "
   "template per path); R05.3 every division by a pooled multiplicity / spike count is dominated by a zero test on the same variable; R05.4 "
   "the zero alternative is the conventional literal (SPIKE-Sync of nothing = 1); R05.5 pair enumeration, divide-and-conquer slices, 1/M scaling, "
-  "pooled sums; R05.6 avrg of the three classes = integral / length (ratio with the empty convention for discrete profiles)."
+  "pooled sums; R05.6 avrg of the three classes = integral / length (ratio with the empty convention for discrete profiles); R05.7 scalar and profile "
+  "routes resolve MRTS='auto' from the same trains (resolved before any per-pair call, never left to each pair)."
   + NOT_DECIDED + "exactness of integral() as numbers and pointwise exactness of add() - the multivariate equality composes those.",
   [],
   {'R05.1': 10, 'R05.2': 100, 'R05.3': 25, 'R05.5': 30})
@@ -699,13 +704,19 @@ P('C18', 'other',
    lambda c: only_rules(lambda cc: _discrete_rules(cc, ('sync', 'order')), {'R18.5'})(c),
    lambda c: _epilogue_trim(c, [k for f in (isi_family(c), spike_family(c)) if f for k in (f.py, f.pyx)], 'R18.5'),
    _unreachable_info,
-   lambda c: _nonempty_aux(c, 'R18.4')],
+   lambda c: _nonempty_aux(c, 'R18.4'),
+   lambda c: [Ob('R18.7', o.title, o.status, o.where, o.detail, o.key, o.construct, o.extra) for o in _isi_rules(c) if o.rule == 'R01.4'],
+   lambda c: [Ob('R18.7', o.title, o.status, o.where, o.detail, o.key, o.construct, o.extra) for o in _spike_rules(c) if o.rule == 'R02.5'],
+   lambda c: [Ob('R18.7', o.title, o.status, o.where, o.detail, o.key, o.construct, o.extra)
+              for o in RM.r15_4_threshold_definition(c, 'R15.4', 'R08.2') if o.rule == 'R15.4' and 'isi_lengths' in o.title]],
   "R18.1 every division by a pooled multiplicity or a spike count is dominated by a zero test on the same variable (all other divisors are "
   "classified positive with a reason); R18.2 every constant subscript [1], [N-2], [-2] of a spike array is under `N > 1` for that train; R18.3 "
   "written-extent analysis of the 10 kernels that allocate with np.empty: no unwritten cell is returned, returned lengths are related as the "
   "classes require; R18.4 kernels that read element 0 unconditionally only receive get_spikes_non_empty(), the others the plain spikes; max_tau "
   "is a number, MRTS is resolved (each otherwise a TypeError/IndexError on valid input); R18.5 time axis framed by t_start / t_end with the "
-  "duplicate end removed; R18.6 unreachable compiled code is listed, not trusted."
+  "duplicate end removed; R18.6 unreachable compiled code is listed, not trusted; R18.7 the one-spike ('N > 1 else') alternatives of every edge "
+  "correction (ISI intervals, SPIKE auxiliary spikes, isi_lengths) are the documented expressions - a distance to the opposite edge or to the own edge "
+  "as specified, never a difference that is 0 for a spike sitting on the edge (which would give 0/0)."
   + NOT_DECIDED + "finiteness of values (no zero ISI for strictly increasing trains) and strict monotonicity of the emitted axis as numbers.",
   [],
   {'R18.1': 25, 'R18.2': 40, 'R18.3': 50, 'R18.4': 30, 'R18.5': 10})
@@ -774,12 +785,14 @@ def _mirror_kernels(ctx, rule='R08.2') -> List[Ob]:
             nm = start_vals[0][0]
             # compiled spelling re-uses the previous interval (lemma L2): substitute it
             l2 = C.sub(C.atom(('sub', ('n', s[i]), C.sub(N[i], C.ONE))), C.atom(('sub', ('n', s[i]), C.sub(N[i], C.const(2)))))
-            cands = {end_vals[0], C.subst_atoms(end_vals[0], {('n', nm): l2})}
-            if rs is not None and (rs in cands or any(RM._one_spike_equal(rs, c_, s[i], N[i]) for c_ in cands)):
-                out.append(ok(rule, t, k.loc(), construct=f"{k.path}::{k.name}::mirror::{i}"))
-            else:
-                out.append(violation(rule, t, k.loc(), key=f"{k.path}::{k.name}::isi-mirror::train{i}",
-                                     detail=f"rho(first rule) = {C.show(rs) if rs is not None else '?'}\nlast rule = {C.show(end_vals[0])}"))
+            for n_end, ev in enumerate(end_vals):
+                cands = {ev, C.subst_atoms(ev, {('n', nm): l2})}
+                t2 = t + f" (end path {n_end})"
+                if rs is not None and (rs in cands or any(RM._one_spike_equal(rs, c_, s[i], N[i]) for c_ in cands)):
+                    out.append(ok(rule, t2, k.loc(), construct=f"{k.path}::{k.name}::mirror::{i}::{n_end}"))
+                else:
+                    out.append(violation(rule, t2, k.loc(), key=f"{k.path}::{k.name}::isi-mirror::train{i}::end{n_end}",
+                                         detail=f"rho(first rule) = {C.show(rs) if rs is not None else '?'}\nlast rule = {C.show(ev)}"))
     # ---- SPIKE: r(lower auxiliary spike) == upper auxiliary spike
     f = spike_family(ctx)
     for k in ([f.py, f.pyx, f.single] if f else []):
